@@ -79,7 +79,7 @@ package config
 //@   nopanic
 //@   pure
 //@   requires specCacheSet(c)
-//@   ensures [C18] result == nil ==> specWorkableCache(c)
+//@   ensures [C18,C16] result == nil ==> specWorkableCache(c)
 
 //@ props C18 C16
 //@ func ProxyConfig.verify
